@@ -77,3 +77,6 @@ func zzIter() int { panic("spec only") }
 //@ loop 1 invariant [i] 0 <= i && i <= n
 //@ loop 1 preserves [bogus] s == old(s)+1
 //@ loop 1 preserves [ok] s == old(s)+2 && i == old(i)+1
+
+//@ func useHelper
+//@ ensures [iff] result == (n >= 10 && n <= 100)
